@@ -505,7 +505,7 @@ def set_path(doc, p, k, v):
     return True
 
 
-def load_mutants(w, tier, rng):
+def load_mutants(w, tier, rng, corpus=False):
     """ALL single-fault mutants of the well-formed workflow w at all positions:
     -> list of (fault name, faulty (must be rejected per the property), finding classes, mutant)"""
     out = []
@@ -570,8 +570,8 @@ def load_mutants(w, tier, rng):
             out.append(('WrongType', True, cls, m))
         for k, v in [('name', [1]), ('stage', [1]), ('references', 7), ('references', [1]), ('workflowAttributes', 7),
                      ('resourceRequest', [1]), ('command', 7), ('variables', 7), ('resourceManager', 'abc')]:
-            if tier == 'quick' and rng.random() < 0.5:
-                continue
+            if tier == 'quick' and not corpus and rng.random() < 0.5:
+                continue   # the corpus workflow always carries the witnesses of the repaired F11a
             m = fresh()
             finalize(m)
             m['comps'][i]['doc'][k] = v
@@ -607,7 +607,7 @@ def classify(err):
     s = str(err)
     if isinstance(err, (E.FlowIRKeyUnknown, E.FlowIRValueInvalid)):
         return 1
-    if 'exists multiple times' in s:
+    if 'exists multiple times' in s or 'Duplicate components' in s:
         return 2
     if isinstance(err, (E.FlowIRReferenceToUnknownComponent, E.FlowIRUnknownReferenceInArguments)):
         return 3
@@ -741,7 +741,7 @@ def run(ctx):
     items = []
     for w in wfs:
         items.append(('none', False, [], finalize(copy.deepcopy(w))))
-        items.extend(load_mutants(w, ctx.tier, ctx.rng))
+        items.extend(load_mutants(w, ctx.tier, ctx.rng, corpus=(w is wfs[0])))
     explore_loads(ctx, items)
     ctx.rule = ('A: a document with at least one schema error; B: a single-fault mutant (drop/rename/add edge/duplicate '
                 'name/unknown key/wrong type/remove variable/cyclic variables) of a generated 2-5 component workflow; '
